@@ -66,7 +66,10 @@ def genHandlers : List Handler := [
   Mir.Gen.Pattern.handler,
   Mir.PyPat.handler,
   Mir.Gen.Beat.handler,
-  Mir.PyBeat.handler
+  Mir.PyBeat.handler,
+  Mir.Gen.Alignment.handler,
+  Mir.Gen.EvalGlue.handler,
+  Mir.PyAl.handler
 ]
 
 def handlers : List Handler := [chordReHandler, Scores.handler, Matching.handler, HitMetric.handler, Chord.handler, Multipitch.handler, Beat.handler, Melody.handler, Intervals.handler, Pattern.handler, Onset.handler, Boundary.handler, Tempo.handler, Alignment.handler, IO.handler, Transcription.handler, Hierarchy.handler, Separation.handler, SeparationLS.handler, EvalProg.handler Gen.evalPrograms Gen.sigs EvalSpec.specs, Validate.handler, Segment.handler, ChordCompare.handler, ChordEval.handler, Key.handler, Effects.handlerFor MirGen.Effects.prog MirGen.Effects.names MirGen.Effects.table]
